@@ -16,7 +16,7 @@ EXTENDS BlobStore, TLC, Json, IOUtils
 CONSTANTS Clients, Weak
 VARIABLES pend,      \* [Clients -> pending call record]
           l, dead,
-          segno      \* segment counter modulo 8 (selects the high-water register, see Mark)
+          segno      \* segment counter modulo 64 (selects the high-water register, see Mark)
 Trace == ndJsonDeserialize(IOEnv.TRACE_FILE)
 Ev == Trace[l]
 tvars == <<vars, pend, l, dead, segno>>
@@ -38,7 +38,11 @@ TInit == /\ l = 1 /\ dead = TRUE
    marks of a slower, earlier segment.  A live branch lags by at most one level per operation of its segment,
    i.e. by less than half its segment's length: eight registers used round-robin per segment cannot collide
    (the orchestrator checks that every segment has at least 2 lines per operation). *)
-ASSUME \A i \in 10..17 : TLCSet(i, 0)
+ASSUME \A i \in 10..73 : TLCSet(i, 0)
+\* 64 registers chosen round-robin per segment: a live state lags behind the dead front-runner by one BFS level per silent
+\* step, so states of several segments coexist; with 8 registers a long segment (100 silent steps) followed by more than 8
+\* short ones had its register overwritten and its lines went unreported (seen in Trace_SyncValidate, which prints every
+\* line instead).  64 segments are always longer than the lag of one.
 Mark == IF l > TLCGet(10 + segno) THEN TLCSet(10 + segno, l) /\ PrintT(<<"HW", l>>) ELSE TRUE
 IsEv(e) == l <= Len(Trace) /\ Ev.ev = e /\ l' = l + 1
 
@@ -47,7 +51,7 @@ TReset == /\ IsEv("reset")
           /\ size' = [b \in Blobs |-> IF b \div 2 <= Len(Ev.sizes) THEN Ev.sizes[b \div 2] ELSE 0]
           /\ caps' = [canRemove |-> Ev.canRemove, readOnly |-> Ev.readOnly, subfetch |-> Ev.subfetch]
           /\ reply' = InitReply /\ pend' = [c \in Clients |-> Idle] /\ dead' = FALSE
-          /\ segno' = (segno + 1) % 8 /\ TLCSet(10 + ((segno + 1) % 8), 0)
+          /\ segno' = (segno + 1) % 64 /\ TLCSet(10 + ((segno + 1) % 64), 0)
 
 Call == /\ IsEv("call") /\ ~dead /\ pend[Ev.c].st = "idle"
         /\ pend' = [pend EXCEPT ![Ev.c] =
